@@ -73,10 +73,10 @@ FROM_KEYWORD_STUB = r"""
 impl Kind {
     /// 100-arm match on byte-string literals in the real code; pure; only selects the Kind.
     /// Assumed contract (checked separately by the Kani harness c13_from_keyword_never_eof):
-    /// a keyword is never lexed as Eof.
+    /// a keyword is never lexed as Eof or as the Tombstone placeholder.
     #[verifier::external_body]
     pub fn from_keyword(word: &[u8]) -> (r: Option<Kind>)
-        ensures r != Some(Kind::Eof),
+        ensures r != Some(Kind::Eof), r != Some(Kind::Tombstone),
     { unimplemented!() }
 }
 """
@@ -111,7 +111,7 @@ def scanner(ret_kind: str | None, stop: str, extra_ens=(), loops=1, extra_inv=()
     return c
 
 
-NOT_EOF = "k != Kind::Eof"
+NOT_EOF = "k != Kind::Eof && k != Kind::Tombstone"
 
 # functions of the extracted unit that are verified for safety only and need no contract of their own
 NO_CONTRACT_NEEDED = ["in_path", "transition"]
@@ -147,6 +147,7 @@ CONTRACTS = {
             "final(self).pos <= final(self).input@.len()",                               # T1
             "old(self).pos < old(self).input@.len() ==> r.len >= 1",                      # T2
             "(r.kind == Kind::Eof) <==> (old(self).pos == old(self).input@.len())",       # T3
+            "r.kind != Kind::Tombstone",  # the placeholder kind is never lexed (to_token_kind panics on it)
             "(utf8_shape(old(self).input@) && boundary(old(self).input@, old(self).pos as int)) ==> boundary(old(self).input@, final(self).pos as int)",  # T4
         ],
     },
